@@ -79,7 +79,7 @@ def export_diff(e1, e2, mult=1.0):
 
 class E4Session(SessionBase):
     ENGINE = 'e4'
-    PATH = 'design.json'
+    PATH = os.path.abspath('design.json')
 
     def __init__(self, world, props, known=None):
         super().__init__(world, props, known)
